@@ -28,7 +28,6 @@ CLAIMED = {
   level=dict(category="exploration", design_ref="DESIGN.md §4.1-4.2, Corrections 1-3, 14-15",
     text="Seeded search over generated programs (all constructs, all ten families, state-dependent parameters and probabilities, nested if/elif/else, guards that exit) x scripted resolution paths. Every random request of the real Simulator, Assignment.evaluate, Condition.evaluate and the ten samplers is resolved at a scheduler-chosen quantile of its own law; the reference interpreter resolves its own law at the same quantile (or the upper quantile when the implementation uses the draw antithetically), and all iteration-boundary states (including the stuttering states after guard exit), goal columns and reported means (Simulator API and SimulationAction end to end) must agree; 20 % of the cases simulate 2-4 programs one after the other in one interpreter. Samplers are additionally compared as quantile functions on a grid and against get_support / is_discrete / get_moment. Sampling, not enumeration: a clean batch is evidence, not proof."),
   note="Trusted: sim/refinterp.py (reference semantics, ~300 lines), sim/laws.py (scipy.stats used as a math library for cdf/ppf/isf/moment). Branch decisions closer than 1e-11 relative are discarded as inconclusive; runs in which randomness is drawn past the seam are inconclusive. Assumes random requests are issued in statement execution order, one per executed probabilistic statement, and that finite choices are requested as finite laws."),
-),
 "C05": dict(
   engine="scripted-rng-simulator",
   technique="deterministic simulation: executions of the normalised program by Polar's own evaluator under a scripted RNG seam, seeded adversarial/coverage resolution schedules far past guard exit; state invariant value-in-type monitored after every assignment; independent exact evaluator confirms",
